@@ -5,7 +5,7 @@ replaying its history of events on a freshly constructed vector; states are merg
 (class, item dumps, hidden _items_size)."""
 import copy
 
-from mc import canon, classes, core, harvest_objects
+from mc import canon, classes, core, harvest_objects, objects
 
 
 # ---- toy vector classes with tight bounds so that both bounds are reachable within the depth bound ----------
@@ -282,7 +282,7 @@ class Explorer(object):
 
     def snapshot(self, v):
         items = _items_of(v)
-        if len(items) > 256:
+        if len(items) > 256 or getattr(self, 'huge', False):
             # large vectors only ever hold the alphabet objects themselves: identity is a sound item key
             return (tuple(id(x) for x in items), _hidden_size(v))
         return (tuple(repr(canon.dump(x, eq=True)) for x in items), _hidden_size(v))
@@ -536,6 +536,37 @@ def near_max_states(cls, items, param):
     return out
 
 
+def huge_states(cls, items, param):
+    """For vectors of parsable items whose maximum lies in (2^16, 2^24]: one item stretched (through a bytes field of
+    its own) so that the vector is exactly at its maximum, and one alphabet item below it."""
+    out = []
+    if not (2 ** 16 < param.max_byte_num <= 2 ** 24) or not items:
+        return out, None
+    s0 = min(ref_item_size(cls, param, x) for x in items)
+    for x in items:
+        if not objects.is_lib_object(x):
+            continue
+        for a, kw in (objects._init_fields(x) or []):
+            try:
+                v = getattr(x, a)
+            except AttributeError:
+                continue
+            if not isinstance(v, (bytes, bytearray)):
+                continue
+            try:
+                smallest = objects.rebuild(x, a, b'')
+                over = ref_item_size(cls, param, smallest)
+                for total in (param.max_byte_num, param.max_byte_num - s0, param.max_byte_num - over,
+                              param.max_byte_num - 1):
+                    big = objects.rebuild(x, a, b'\xa5' * (total - over))
+                    if ref_item_size(cls, param, big) == total:
+                        out.append([big])
+            except Exception:  # noqa
+                continue
+            return out, smallest
+    return out, None
+
+
 def _worker(args):
     ci, mode, depth = args
     acc = core.Acc()
@@ -559,6 +590,22 @@ def _worker(args):
             acc.count('classes_small')
             acc.sample({'cls': cls.__name__, 'items': [repr(x)[:60] for x in items], 'events': len(ex.events),
                         'depth': depth, 'states': n}, 1)
+        elif mode == 'huge':
+            ex = Explorer(cls, acc, light=True)
+            ex.huge = True
+            inits, smallest = huge_states(cls, items, param)
+            if smallest is not None:
+                # the smallest encodable item (empty payload) joins the alphabet: it is the one an off-by-a-prefix size
+                # computation lets through at the maximum
+                ex.items = [smallest] + [x for x in ex.items][:2]
+                ex.events = events(len(ex.items))
+            for init in inits:
+                try:
+                    cls(list(init))
+                except Exception:  # noqa
+                    continue
+                ex.bfs(init, depth)
+                acc.count('huge_initial_states')
         else:
             ex = Explorer(cls, acc, light=True)
             for init in near_max_states(cls, items, param):
@@ -584,11 +631,14 @@ def run(ctx):
         if not toy and param.max_byte_num <= 2 ** 16:
             big = param.max_byte_num > 2 ** 12
             items.append((ci, 'nearmax', (1 if big else 2) if ctx.quick else (2 if big else 3)))
+        elif not toy and param.max_byte_num <= 2 ** 24:
+            items.append((ci, 'huge', 1 if ctx.quick else 2))
     ctx.notes['vector_classes'] = len(vcs)
     ctx.pmap(_worker, items)
     ctx.assumptions += [
         'item alphabets: up to 3 valid items per class with pairwise different encoded sizes where available',
-        'upper bounds above 2^16 (SSH name-lists, certificate chains) are not approached',
+        'upper bounds of 2^32-1 (SSH name-lists) are not approached; 2^24-1 bounds are approached for vectors whose '
+        'item has a stretchable bytes field (certificate chains)',
         'four toy subclasses of Vector/Opaque/VectorParsable/VectorString with tight bounds (defined in /verif) '
         'run the real ArrayBase code so both bounds are reachable within the depth bound',
     ]
